@@ -35,7 +35,7 @@ func TestCheck(t *testing.T) {
 	for _, s := range []string{"waiter-cancelled-during-clean", "clean-failure-on-acquire", "clean-failure-on-release", "acquirers-racing-after-release-clean",
 		"directory-creation-failure", "concurrent-actions-in-distinct-directories", "through-clean-runner",
 		"executor-ends-ok", "executor-ends-runner-error", "executor-ends-cancelled", "executor-ends-missing-command", "concurrent-executors",
-		"directory-fault-Mkdir", "directory-fault-EnterBuildDirectory", "directory-fault-RemoveAll", "directory-fault-Close", "cleaner-fault-in-creator-stack"} {
+		"base-creator-failure-under-clean-creator", "directory-fault-Mkdir", "directory-fault-EnterBuildDirectory", "directory-fault-RemoveAll", "directory-fault-Close", "cleaner-fault-in-creator-stack"} {
 		r.Floor(s, 5)
 	}
 
@@ -100,6 +100,15 @@ func TestCheck(t *testing.T) {
 				c.CleanFaultAt = p
 				creatorScripted(r, c)
 			}
+		}
+	}
+
+	// (5b) the clean creator's own failure path (base creator fails).
+	for i := 0; i < r.Pick(6, 60); i++ {
+		calls := 2 + i%4
+		for f := 0; f <= calls; f++ {
+			cleanCreatorOverFailingBase(r, failingBaseCfg{Case: i, Calls: calls, FailAt: f, Holder: false})
+			cleanCreatorOverFailingBase(r, failingBaseCfg{Case: i, Calls: calls, FailAt: f, Holder: true})
 		}
 	}
 
